@@ -446,7 +446,7 @@ func HeaderedReverseTopologicalOrdering(events []PDU, order TopologicalOrder) []
 func creatorsFromCreateEventOrNone(createEvent PDU) []string {
 	creators := []string{string(createEvent.SenderID())}
 	var content CreateContent
-	if err := json.Unmarshal(createEvent.Content(), &content); err != nil {
+	if err := json.Unmarshal(exactMembersOnly(createEvent.Content(), &content), &content); err != nil {
 		return creators
 	}
 	return append(creators, content.AdditionalCreators...)
